@@ -18,7 +18,7 @@ SPEC = dict(
           "sequences. Everything else the property quantifies over is runtime behaviour and is checked on the real code: identical "
           "digests (every group record, determinant and the .pka text) across fresh interpreters with different PYTHONHASHSEED, "
           "allocation patterns, working directories, path vs stream input; in-process histories (repeats, interleaved inputs and "
-          "options incl. -d, unknown elements) against solo runs; writes to module-level state confined to the modelled write set. The display mode itself is modelled (CoupleSearch.display inside Program.run: the coupled systems in the code's order, every combination of generate_combinations swapped in turn and never swapped back) and compared bit for bit with the real -d results wherever a check runs -d texts through the program tie; a family runs the command-line entry point on two inputs in ONE invocation (shared options object) and compares every written file with the file the input gets alone, with and without --titrate_only lists naming residues the earlier input lacks.",
+          "options incl. -d, unknown elements) against solo runs; writes to module/class-level state confined to the modelled write set, observed in fresh interpreters (first run included) and in the checking process; two histories alternate the shipped parameter file with an edited one (-p: cut-offs, Nmin/Nmax) so that anything derived from one run's parameters and kept shows as a concrete failing history. The display mode itself is modelled (CoupleSearch.display inside Program.run: the coupled systems in the code's order, every combination of generate_combinations swapped in turn and never swapped back) and compared bit for bit with the real -d results wherever a check runs -d texts through the program tie; a family runs the command-line entry point on two inputs in ONE invocation (shared options object) and compares every written file with the file the input gets alone, with and without --titrate_only lists naming residues the earlier input lacks.",
     note="Partial: object addresses and hash seeds are runtime behaviour that the model can only exclude structurally (no set of "
          "groups is iterated after the fix of the coupled-system traversal); this is validated by the fresh-interpreter matrix, not "
          "proved. Tie-prone inputs (isolated ligands with several groups at exactly their model pKa) are generated on purpose.",
